@@ -264,9 +264,10 @@ func HarnessL3() {
 	}
 	apDev := zzvrt.Dev{Name: "additional-property-number-truncated-to-integer", Cond: apTrunc}
 	zzvrt.Check("C02.L3.valid-accepted", zzvrt.Implies(zzvrt.And(base, f.all()), accepted), fmtDev)
-	if accepted && ps.nullable && (ps.kind == "string" || ps.kind == "number" || ps.kind == "integer" || ps.kind == "boolean") && ps.format == "" && !ps.hasDefault && !refNullable {
+	if accepted && ps.nullable && (ps.kind == "string" || ps.kind == "number" || ps.kind == "integer" || ps.kind == "boolean") && (ps.format == "" || ps.format == "typed" || !viaRef) && !ps.hasDefault && !refNullable {
 		// null where the type list has it yields an absent (nil) value
 		zzvrt.Check("C03.L3.null-yields-nil", zzvrt.Implies(zzvrt.DIs(d, "x", zzvrt.KNull), zzvrt.OIsNil(r, "X")))
+		zzvrt.Check("C02.L3.null-is-not-coerced-to-a-value", zzvrt.Implies(zzvrt.DIs(d, "x", zzvrt.KNull), zzvrt.OIsNil(r, "X")))
 	}
 	if accepted && zzvrt.Param("MARSHAL", 1) == 1 {
 		// marshalling the decoded value back reproduces every non-empty declared value
